@@ -7,6 +7,7 @@ package main
 
 import (
 	"fmt"
+	"sort"
 	"strings"
 	"sync"
 	"time"
@@ -486,6 +487,20 @@ func c14DenRun(r *mon.R, env *c14Env, idx int) {
 		}
 	}
 
+	// participants whose proof takes several rounds (the same statement proved 2 or 3 times in sequence through one
+	// context, as multi-round provers such as the shuffles do): the participants of one clique then finish their own proofs
+	// at different steps. Only in the all-honest kind, where every ordered pair must accept.
+	rounds := make([]int, k)
+	for i := range rounds {
+		rounds[i] = 1
+		if kind == "honest" && rng.IntN(2) == 0 {
+			rounds[i] = 2 + rng.IntN(2)
+		}
+	}
+	if kind == "honest" {
+		r.NoteAdd(c14DP+fmt.Sprintf("honest.scenarios-with-round-counts=%v", c14SortedCopy(rounds)), 1)
+	}
+
 	// run
 	results := make([][]error, k)
 	panics := make([]string, k)
@@ -499,11 +514,41 @@ func c14DenRun(r *mon.R, env *c14Env, idx int) {
 		suite := env.mk(gen.New(r.Seed, "C14densuite"+env.name, idx*16+i).Stream())
 		pred, ch := c14Build(p.t.root, p.t.paths[p.branch])
 		prover := pred.Prover(suite, c14CopyScalars(g, p.sec), c14CopyPoints(g, p.t.pts), ch)
+		if rounds[i] > 1 {
+			seq := []proof.Prover{prover}
+			for x := 1; x < rounds[i]; x++ {
+				pr, chx := c14Build(p.t.root, p.t.paths[p.branch])
+				seq = append(seq, pr.Prover(suite, c14CopyScalars(g, p.sec), c14CopyPoints(g, p.t.pts), chx))
+			}
+			prover = func(ctx proof.ProverContext) error {
+				for _, f := range seq {
+					if err := f(ctx); err != nil {
+						return err
+					}
+				}
+				return nil
+			}
+		}
 		vrfs := make([]proof.Verifier, k)
 		for j := 0; j < k; j++ {
 			if j != i && p.verify[j] {
-				vp, _ := c14Build(p.vroot[j], nil)
-				vrfs[j] = vp.Verifier(suite, c14CopyPoints(g, p.vpts[j]))
+				var seq []proof.Verifier
+				for x := 0; x < rounds[j]; x++ {
+					vp, _ := c14Build(p.vroot[j], nil)
+					seq = append(seq, vp.Verifier(suite, c14CopyPoints(g, p.vpts[j])))
+				}
+				if len(seq) == 1 {
+					vrfs[j] = seq[0]
+				} else {
+					vrfs[j] = func(ctx proof.VerifierContext) error {
+						for _, f := range seq {
+							if err := f(ctx); err != nil {
+								return err
+							}
+						}
+						return nil
+					}
+				}
 			}
 		}
 		if fault.hits(i) && fault.kind == "prover-error" {
@@ -756,4 +801,10 @@ func c14RoleClass(role string) string {
 		}
 	}
 	return role
+}
+
+func c14SortedCopy(a []int) []int {
+	b := append([]int(nil), a...)
+	sort.Ints(b)
+	return b
 }
